@@ -59,7 +59,7 @@ def cases(tier, seed):
             for container in ('ndarray', 'list'):
                 n = 3 if tier == 'quick' else 8
                 for op in BIN:
-                    for _ in range(1 if tier == 'quick' else 3):
+                    for _ in range(1 if tier == 'quick' else 8):
                         idxs = [i for i in INDEXES if _index_ok(i, shape)]
                         out.append(dict(kind='array-binary', cfg=cfg, op=op, ka=list(rng.choice(P)), kb=list(rng.choice(P)), shape=list(shape),
                                         container=container, idx=rng.sample(idxs, min(3, len(idxs))), b_array=bool(rng.random() < 0.7 or op in ('add', 'sub', 'div', 'proj'))))
